@@ -94,12 +94,28 @@ pub fn laws<T: DeserializeOwned + Clone + Ord + Hash + Debug>(docs: [&[u8]; 3]) 
     Ok(l)
 }
 
+/// inserts every document's value into a BTreeSet and a HashSet; reports (btree len, hashset len, every value
+/// found in the btree set, every value found in the hash set, deserializing twice gives equal values)
+pub fn set_probe<T: DeserializeOwned + Clone + Ord + Hash + Debug>(docs: &[&[u8]]) -> Result<(usize, usize, bool, bool, bool), String> {
+    let vs: Vec<T> = docs.iter().map(|d| de::<T>(false, d)).collect::<Result<_, _>>()?;
+    let again: Vec<T> = docs.iter().map(|d| de::<T>(false, d)).collect::<Result<_, _>>()?;
+    let mut bs: BTreeSet<T> = BTreeSet::new();
+    let mut hs: HashSet<T> = HashSet::new();
+    for v in &vs {
+        bs.insert(v.clone());
+        hs.insert(v.clone());
+    }
+    let twice = vs.iter().zip(again.iter()).all(|(a, b)| a == b && a.cmp(b) == std::cmp::Ordering::Equal);
+    Ok((bs.len(), hs.len(), again.iter().all(|v| bs.contains(v)), again.iter().all(|v| hs.contains(v)), twice))
+}
+
 pub struct Entry {
     pub kind: &'static str,
     pub name: &'static str,
     /// (configuration, server?, document) -> canonical re-serialization
     pub de_ser: fn(&str, bool, &[u8]) -> Result<String, String>,
     pub laws: fn([&[u8]; 3]) -> Result<Laws, String>,
+    pub set_probe: fn(&[&[u8]]) -> Result<(usize, usize, bool, bool, bool), String>,
 }
 
 macro_rules! make_registry {
@@ -115,6 +131,7 @@ macro_rules! make_registry {
                         _ => de_ser::<plain::$name>(server, doc),
                     },
                     laws: |docs| laws::<plain::$name>(docs),
+                    set_probe: |docs| set_probe::<plain::$name>(docs),
                 },
             )*]
         }
